@@ -149,6 +149,28 @@ func NewMachine(noLibs bool) *Machine {
 	return m
 }
 
+// EndState reports what a host sees of the main thread's bookkeeping between
+// two calls: "" when every counter is back at rest, else the counters that
+// are not (re-entrant call depth, Go function call depth, context stack depth
+// and - after a call made inside a context - pending to-be-closed values).
+func (m *Machine) EndState(inContext bool) string {
+	t := m.R.MainThread()
+	var bad []string
+	if n := t.VerifReentrantCallDepth(); n != 0 {
+		bad = append(bad, fmt.Sprintf("reentrant-call-depth=%d", n))
+	}
+	if n := t.VerifGoFunctionCallDepth(); n != 0 {
+		bad = append(bad, fmt.Sprintf("go-call-depth=%d", n))
+	}
+	if n := m.R.VerifContextDepth(); n != 0 {
+		bad = append(bad, fmt.Sprintf("context-depth=%d", n))
+	}
+	if n := t.VerifCloseStackSize(); n != 0 && inContext {
+		bad = append(bad, fmt.Sprintf("close-stack=%d", n))
+	}
+	return strings.Join(bad, " ")
+}
+
 func (m *Machine) Close() {
 	m.R.Close(nil)
 	if m.close != nil {
